@@ -264,7 +264,8 @@ Inductive sfault :=
 | SGarbage       (* query read, a well-framed undecodable message *)
 | SFin | SRst    (* query read, then FIN / RST *)
 | SIdleFin | SIdleRst | SIdleGarbage   (* done to a pooled connection while it is idle *)
-| SIdleDown.     (* UDP: the server socket is closed while the client socket is pooled *)
+| SIdleDown      (* UDP: the server socket is closed while the client socket is pooled *)
+| SWriteErr.     (* injected connection whose next Write fails (the connection itself stays usable) *)
 
 (* a freshly dialled connection *)
 Definition abs_dial (tk : tkind) (udp : bool) (f : sfault) : fault :=
@@ -275,6 +276,7 @@ Definition abs_dial (tk : tkind) (udp : bool) (f : sfault) : fault :=
   | SSilent | SHalf => FSilent
   | SGarbage => if udp then FSilent (* readLoop skips an undecodable datagram *) else FDie
   | SIdleDown => FDie
+  | SWriteErr => FWriteErr
   | _ => FDie
   end.
 
@@ -288,6 +290,7 @@ Definition abs_pooled (tk : tkind) (udp : bool) (f : sfault) : option fault :=
       (* the pipelined read loop sees the EOF / error at once and marks the connection closed; the one-at-a-time
          transport only checks that the socket was not closed locally *)
       match tk with TPipe => None | _ => Some FDie end
+  | SWriteErr => Some FWriteErr
   | _ => Some FDie
   end.
 
